@@ -274,7 +274,7 @@ def construct(ex, cls: type, args, kwargs, s: St):
                 s.heap = s.heap.with_field(f.name, z3.Store(s.heap.f[f.name], obj.t, v))
             else:
                 s.assume(smt.attr_func(f.name)(obj.t) == v)
-        s.trace.append(("new", cls.__name__, {k: str(getattr(v, "t", v)) for k, v in given.items()}))
+        s.trace.append(("new", cls.__name__, {k: str(getattr(v, "t", v)) for k, v in given.items()}, {"fields": dict(given), "obj": obj}))
         yield s, obj
         return
     key = ex.project.key_for_function(getattr(cls, "__init__", None))
